@@ -161,3 +161,44 @@ def build5(m):
                        call_asserts={MOD + ':MarkdownRenderer.%s#lines' % callee: [SAME]},
                        loops={0: Loop(invariant=[])},
                        prop=['C10']))
+
+
+def build6(m):
+    """make_words and prefix_lines verified on their real bodies (C10): words are never empty, a
+    prefixed line is the prefix followed by the line (so its width is exactly prefix + line) or the
+    empty string when it would be blank."""
+    FR = TRef('Fragment')
+    m.classes['Fragment'] = {'text': STR, 'wordwrap': BOOL, 'hard_line_break': BOOL,
+                             '__has_wordwrap': BOOL, '__has_hard_line_break': BOOL}
+    m.optional_fields |= {('Fragment', 'wordwrap'), ('Fragment', 'hard_line_break')}
+    m.class_attrs[('MarkdownRenderer', '_whitespace')] = ('const', mk_obj('pattern', 'MarkdownRenderer._whitespace'))
+    m.add(Contract('re:MarkdownRenderer._whitespace.split', [('s', STR)], returns=TList(STR), trusted=True, pure=True,
+                   ensures=['len(result) >= 1'],
+                   note=r'A5: re.split(r"\s+", s) returns at least one piece'))
+    # Fragment protocol (render_line_break): a hard line break carries its marker ("\\" or two blanks) and "\n"
+    HARD = ("forall(lambda i: implies(field(fragments[i], '__has_hard_line_break') and fragments[i].hard_line_break "
+            "and not (field(fragments[i], '__has_wordwrap') and fragments[i].wordwrap), len(fragments[i].text) >= 2), 0, len(fragments))")
+    m.add(Contract(MOD + ':MarkdownRenderer.make_words', [('cls', cls_t('MarkdownRenderer')), ('fragments', TList(FR))],
+                   returns=None, requires=[HARD],
+                   yield_type=STR,
+                   yield_asserts=[('len(yielded) >= 1', 'C10')],
+                   body_types={'word': STR},
+                   loops={0: Loop(invariant=[]), 1: Loop(invariant=[])},
+                   prop=['C10']))
+    m.add(Contract(MOD + ':MarkdownRenderer.prefix_lines#width',
+                   [('cls', cls_t('MarkdownRenderer')), ('lines', TList(STR)), ('first_line_prefix', STR),
+                    ('following_line_prefix', TOpt(STR), NONE_VAL)],
+                   returns=None, yield_type=STR,
+                   yield_asserts=[
+                       # C10 / C09: a prefixed line is prefix + line (first prefix on the first line, the
+                       # following prefix - or the first one when none / an empty one is given - afterwards)
+                       ("yielded == '' or yielded == (old(first_line_prefix) if _k0 == 0 else "
+                        "(some(old(following_line_prefix)) if not is_none(old(following_line_prefix)) and "
+                        "some(old(following_line_prefix)) != '' else old(first_line_prefix))) + lines[_k0]", ['C10', 'C09']),
+                       # only a line that would consist of white space is emptied
+                       ("implies(yielded == '', (old(first_line_prefix) + lines[_k0]).strip() == '' or "
+                        "(not is_none(old(following_line_prefix)) and (some(old(following_line_prefix)) + lines[_k0]).strip() == ''))",
+                        ['C10', 'C09']),
+                   ],
+                   loops={0: Loop(invariant=['is_first_line == (_k0 == 0)'])},
+                   prop=['C10', 'C09']))
